@@ -967,12 +967,30 @@ def _body_facts(self):
                     rel = ('cmp', op, _unref(cc[2][0]), _unref(cc[2][1]))
                 else:
                     rel = ('bool', cc, tr)
+                    # x.is_none() / is_some() / is_ok() / is_err() as a branch condition is a test of x's discriminant
+                    if cc[0] == 'call' and len(cc[2]) == 1:
+                        cn = canon(cc[1])
+                        dv = {"Option::is_none": (0, 1), "Option::is_some": (1, 0), "Result::is_ok": (0, 1), "Result::is_err": (1, 0)}
+                        for nm, (when_true, when_false) in dv.items():
+                            if cn.endswith(nm):
+                                facts.append({"u": bb, "v": tgt, "rel": ('discr', _unref(cc[2][0]), when_true if tr else when_false)})
             else:
                 if c[0] == 'discr':
                     rel = ('discr', deep_strip(c[1]), truth)
+                    # signed -> (at least as wide) unsigned conversion fails exactly for negative values
+                    sg = _signed_to_unsigned(deep_strip(c[1]))
+                    if sg is not None and truth in (0, 1):
+                        facts.append({"u": bb, "v": tgt, "rel": ('cmp', 'Ge' if truth == 0 else 'Lt', sg, ('const', 0))})
+                    # x.map(f) / x.map_err(f) has the variant of x
+                    inner = deep_strip(c[1])
+                    while inner[0] == 'call' and len(inner[2]) == 2 and canon(inner[1]).split("::")[-2:] in (["Option", "map"], ["Result", "map"], ["Result", "map_err"]):
+                        inner = deep_strip(inner[2][0])
+                        facts.append({"u": bb, "v": tgt, "rel": ('discr', inner, truth)})
                 else:
                     rel = ('cmp', 'Eq', c, ('const', truth))
             facts.append({"u": bb, "v": tgt, "rel": rel})
+            for r2 in _empty_len_twin(rel):
+                facts.append({"u": bb, "v": tgt, "rel": r2})
         # the otherwise edge of a non-bool switch: value differs from every listed one
         if edges and edges[-1][1] is None:
             for (tgt, val) in edges[:-1]:
@@ -980,6 +998,44 @@ def _body_facts(self):
                     facts.append({"u": bb, "v": edges[-1][0], "rel": ('cmp', 'Ne', c, ('const', val))})
     self._facts = facts
     return facts
+
+
+def _empty_len_twin(rel):
+    """`x.is_empty()` and `x.len() == 0` are the same test: emit the fact in the other spelling too"""
+    out = []
+    if rel[0] == 'bool':
+        c = rel[1]
+        if c[0] == 'call' and c[1].endswith("::is_empty") and len(c[2]) == 1:
+            ln = ('call', c[1][:-len("is_empty")] + "len", c[2], c[3] if len(c) > 3 else ())
+            out.append(('cmp', 'Eq' if rel[2] else 'Ne', ln, ('const', 0)))
+    elif rel[0] == 'cmp':
+        for a, b, op in ((rel[2], rel[3], rel[1]), (rel[3], rel[2], SWAP[rel[1]])):
+            a = deep_strip(a)
+            if a[0] == 'call' and a[1].endswith("::len") and len(a[2]) == 1 and b[0] == 'const':
+                emp = None
+                if (op == 'Eq' and b[1] == 0) or (op == 'Lt' and b[1] == 1) or (op == 'Le' and b[1] == 0):
+                    emp = True
+                elif (op == 'Ne' and b[1] == 0) or (op == 'Gt' and b[1] == 0) or (op == 'Ge' and b[1] == 1):
+                    emp = False
+                if emp is not None:
+                    out.append(('bool', ('call', a[1][:-len("len")] + "is_empty", a[2], a[3] if len(a) > 3 else ()), emp))
+                break
+    return out
+
+
+_INTW = {"8": 8, "16": 16, "32": 32, "64": 64, "128": 128, "size": 64}
+
+
+def _signed_to_unsigned(t):
+    """TryFrom<iN>::try_from(x) for uM / x.try_into() with M >= N: returns x, else None"""
+    if t[0] != 'call' or len(t[2]) != 1:
+        return None
+    m = re.search(r"TryFrom<i(8|16|32|64|128|size)> for u(8|16|32|64|128|size)>::try_from$", t[1])
+    if not m and canon(t[1]).endswith("TryInto::try_into") and len(t) > 3 and len(t[3]) >= 2:
+        m = re.fullmatch(r"i(8|16|32|64|128|size)\|u(8|16|32|64|128|size)", f"{t[3][0]}|{t[3][1]}")
+    if m and _INTW[m.group(2)] >= _INTW[m.group(1)]:
+        return deep_strip(t[2][0])
+    return None
 
 
 def _writes_between(self, v, use_pos, parts, edge):
